@@ -120,7 +120,10 @@ def run_doc(ctx: Ctx, it: dict) -> None:
             elif "Unsupported type" in full:
                 cls = "unsupported_type"
             elif phase:
-                line = full.split("\n")[1 if "\n" in full else 0]
+                first = full.split("\n")[0]
+                rest = first.split(": ", 1)[1] if ": " in first else ""
+                # "Failed to convert data to X:" + detail lines, or the whole message on the first line
+                line = rest if rest.strip() else full.split("\n")[1 if "\n" in full else 0]
                 line = re.sub(r"^- [^:]*: ", "", line)
                 line = re.sub(r"c\d+\.models\.[\w.]+", "<model>", line)
                 line = re.sub(r"(into|of) .*", r"\1 <type>", line)
